@@ -106,7 +106,7 @@ func verifClose(a, b float64) bool {
 func verifBad(x float64) bool { return math.IsNaN(x) || math.IsInf(x, 0) || x < 0 }
 
 type verifStep struct {
-	dt     int64 // ms since the previous step
+	dt     int64 // ns since the previous step
 	c      uint64
 	sample bool // call doSample
 	avg    bool // call sampleAverage
@@ -114,8 +114,9 @@ type verifStep struct {
 	act    string
 }
 
-// verifHistory draws one history.  Times are whole milliseconds (the meter's own resolution).
-func verifHistory(r *vrand.Rand) (steps []verifStep, mode string, wrap bool) {
+// verifHistory draws one history.  Times are whole milliseconds, or (nsJitter) arbitrary nanoseconds.
+func verifHistory(r *vrand.Rand) (steps []verifStep, mode string, wrap, nsJitter bool) {
+	nsJitter = r.Chance(1, 3)
 	modes := []string{"regular", "irregular", "slow", "fast"}
 	mode = modes[r.Intn(len(modes))]
 	wrap = r.Chance(1, 6)
@@ -175,6 +176,14 @@ func verifHistory(r *vrand.Rand) (steps []verifStep, mode string, wrap bool) {
 		default:
 			st.dt, st.gap = 0, "same-instant"
 		}
+		st.dt *= 1000000
+		if nsJitter && st.gap != "same-instant" && !strings.HasPrefix(st.gap, "exactly") {
+			st.dt += int64(r.Intn(1000000))
+		}
+		if nsJitter && strings.HasPrefix(st.gap, "exactly") && r.Chance(1, 3) {
+			st.dt += int64(r.Pick(-1, 1)) // one nanosecond early / late
+			st.gap = "exactly+-1ns"
+		}
 		if i == 0 {
 			st.dt = 0
 		}
@@ -232,7 +241,7 @@ func TestVerif_C20_Windows(t *testing.T) {
 	m := mon.New("C20", "windows")
 	defer m.Finish(t)
 	m.Rule("PRNG histories of 2..200 (time, counter) observations fed to doSample/sampleAverage in virtual time, for the request meter and the bitrate meter: " +
-		"modes regular (10 s timer with jitter) / irregular / slow / fast; gaps tiny, sub-window, exactly 10/30/300 s, between windows, multi-window (up to 3000 s), same instant; " +
+		"modes regular (10 s timer with jitter) / irregular / slow / fast; gaps tiny, sub-window, exactly 10/30/300 s, between windows, multi-window (up to 3000 s), same instant; whole milliseconds or (1 in 3) nanosecond jitter incl. a window length +-1 ns; " +
 		"counter steps small, medium, stall, jump (2^32..2^50), reset to a smaller value, reset to 0, first observations of 0, start values up to 2^61, wrap-around across 2^64 with small true increases; " +
 		"the average is also read between sampling instants. distinct = meter x mode x observed events (windows that fired, stall/backwards zeros, wrap crossing, zero observations)")
 	n := m.N(20000, 2000000)
@@ -255,16 +264,16 @@ func TestVerif_C20_Windows(t *testing.T) {
 	outs := make([][]out, n)
 	mon.Parallel(n, func(w, idx int) {
 		r := m.Rand("history", idx)
-		steps, mode, wrap := verifHistory(r)
+		steps, mode, wrap, nsJitter := verifHistory(r)
 		mt := verifNewMeter(r.Bool())
 		base := time.Unix(int64(r.PickU64(0, 10, 1700000000, 4102444800)), 0)
 		startAt := r.Intn(3) // the meter is "started" before this step; earlier steps verify the refusal
 		m.Case()
 		var log []string
 		add := func(sig, format string, a ...interface{}) {
-			rep := map[string]interface{}{"case": idx, "meter": mt.name(), "mode": mode, "base_unix": base.Unix(), "started_before_step": startAt,
-				"history_t_ms_counter_sample_avg": append([]string(nil), log...)}
-			outs[idx] = append(outs[idx], out{sig, fmt.Sprintf(format, a...) + fmt.Sprintf(" [%s, %s, step %d] history(t_ms,counter,doSample,avg)=%s", mt.name(), mode, len(log)-1, strings.Join(verifTail(log, 12), " ")), rep})
+			rep := map[string]interface{}{"case": idx, "meter": mt.name(), "mode": mode, "ns_jitter": nsJitter, "base_unix": base.Unix(), "started_before_step": startAt,
+				"history_t_ns_counter_sample_avg": append([]string(nil), log...)}
+			outs[idx] = append(outs[idx], out{sig, fmt.Sprintf(format, a...) + fmt.Sprintf(" [%s, %s, step %d] history(t_ns,counter,doSample,avg)=%s", mt.name(), mode, len(log)-1, strings.Join(verifTail(log, 12), " ")), rep})
 		}
 		// a fresh meter refuses every reading
 		for g := 0; g < 4; g++ {
@@ -284,7 +293,7 @@ func TestVerif_C20_Windows(t *testing.T) {
 		maxFired := 0
 		for si, st := range steps {
 			tms += st.dt
-			now := base.Add(time.Duration(tms) * time.Millisecond)
+			now := base.Add(time.Duration(tms))
 			mt.src.c = st.c
 			log = append(log, fmt.Sprintf("(%d,%d,%v,%v)", tms, st.c, st.sample, st.avg))
 			m.Count("observations", 1)
@@ -433,6 +442,21 @@ func TestVerif_C20_Windows(t *testing.T) {
 						add("c20:average-differs:zero-observation", "average reads %v at a zero observation (0 or unchanged %v expected)", got, prevAvg)
 						return
 					}
+				case nsJitter && want > 0:
+					// the statement's quotient, to a time resolution of one millisecond
+					el := float64(tms - avg.T0)
+					lo, hi := want*el/(el+1e6), math.Inf(1)
+					if el > 1e6 {
+						hi = want * el / (el - 1e6)
+					}
+					if got < lo*(1-1e-9) || got > hi*(1+1e-9) {
+						add("c20:average-differs:increase+ns-times", "average reads %v, the statement gives %v (accepted %v..%v for 1 ms resolution)", got, want, lo, hi)
+						return
+					}
+					m.Count("average_nonzero_checked", 1)
+					if !verifClose(got, want) {
+						m.Count("average_within_1ms_resolution_only", 1)
+					}
 				case !verifClose(got, want):
 					scope := "increase"
 					if want == 0 {
@@ -441,7 +465,7 @@ func TestVerif_C20_Windows(t *testing.T) {
 					if wrap {
 						scope += "+wrap"
 					}
-					add("c20:average-differs:"+scope, "average reads %v, the statement gives %v (first non-zero observation t=%d ms c=%d)", got, want, avg.T0, avg.C0)
+					add("c20:average-differs:"+scope, "average reads %v, the statement gives %v (first non-zero observation t=%d ns c=%d)", got, want, avg.T0, avg.C0)
 					return
 				default:
 					if want > 0 {
@@ -462,9 +486,9 @@ func TestVerif_C20_Windows(t *testing.T) {
 				evs = append(evs, k)
 			}
 		}
-		m.Classf("%s/%s/fired%d/n%d/%s", mt.name(), mode, maxFired, verifBucket(len(steps)), strings.Join(evs, "+"))
+		m.Classf("%s/%s/ns%v/fired%d/n%d/%s", mt.name(), mode, nsJitter, maxFired, verifBucket(len(steps)), strings.Join(evs, "+"))
 		if m.WantSample() && len(steps) <= 8 && maxFired >= 2 {
-			m.Sample(map[string]interface{}{"meter": mt.name(), "history_t_ms_counter_sample_avg": log, "final_rates": []float64{mt.public(0), mt.public(1), mt.public(2)}})
+			m.Sample(map[string]interface{}{"meter": mt.name(), "history_t_ns_counter_sample_avg": log, "final_rates": []float64{mt.public(0), mt.public(1), mt.public(2)}})
 		}
 	})
 	for i := range outs {
